@@ -55,7 +55,12 @@ def gen_kd(rng, dim):
     qs.append(list(pts[rng.randrange(len(pts))]))
     qs.append([a + 0.25 for a in pts[rng.randrange(len(pts))]])
     idx = [i for i in range(len(pts)) if rng.random() < 0.5] or [0]
-    rng.shuffle(idx)
+    sel = rng.random()
+    if sel < 0.2:
+        idx = list(range(len(pts)))          # every point, in another order: still a remapped tree
+    elif sel < 0.3:
+        idx = list(range(len(pts)))[::-1]
+    rng.shuffle(idx) if sel >= 0.3 or sel < 0.2 else None
     return {"k": "c15.kd%d" % dim, "pts": pts, "qs": qs, "indices": idx, "kk": 0, "k_": 0, "kind": kind,
             "r": safe_radius(rng, pts, qs), "kcount": rng.choice([1, 2, 5, 40, len(pts) + 3])}
 
@@ -288,17 +293,23 @@ def oracle(c, r):
     k = c["k"]
     if k in ("c15.kd2", "c15.kd3"):
         pts = c["pts"]
+        # the listed finding (kiddo returns wrong results) is about data with tied coordinates (gridded, duplicated); on data without a
+        # tie a wrong answer is something else and is reported as such
+        tied = any(len(set(p[j] for p in pts)) < len(pts) for j in range(len(pts[0])))
+        rekey = (lambda kv: kv) if tied else (lambda kv: ("kd-wrong" if kv[0] == "kd-wrong-result" else kv[0], kv[1]))
         for q, o in zip(c["qs"], r["full"]):
-            yield from kd_oracle(pts, list(range(len(pts))), o, q, c["kcount"], c["r"], "KdTree over %d %s points, query %r" % (len(pts), c["kind"], q))
+            yield from map(rekey, kd_oracle(pts, list(range(len(pts))), o, q, c["kcount"], c["r"], "KdTree over %d %s points, query %r" % (len(pts), c["kind"], q)))
         for q, o in zip(c["qs"], r["part"]):
-            yield from kd_oracle(pts, list(c["indices"]), o, q, min(c["kcount"], max(1, len(c["indices"]))), c["r"],
-                                 "PartialKdTree over %d of %d %s points, query %r" % (len(c["indices"]), len(pts), c["kind"], q))
+            yield from map(rekey, kd_oracle(pts, list(c["indices"]), o, q, min(c["kcount"], max(1, len(c["indices"]))), c["r"],
+                                 "PartialKdTree over %d of %d %s points, query %r" % (len(c["indices"]), len(pts), c["kind"], q)))
     elif k in ("c15.poisson2", "c15.poisson3"):
         pts, idx, rad, keep = c["pts"], c["indices"], c["r"], r["keep"]
         what = "sample_poisson_disk(%d %s points, %d working indices (%s), r=%r)" % (len(pts), c["kind"], len(idx), c["order"], rad)
         if r.get("kd_bad") is not None:
             b = r["kd_bad"]
-            yield ("kd-wrong-result", what + ": the k-d tree's radius query at working point %d returns positions %r, brute force %r" % (b["at"], b["got"][:8], b["want"][:8]))
+            wp = [pts[i] for i in idx]
+            tied = any(len(set(p[j] for p in wp)) < len(wp) for j in range(len(wp[0])))
+            yield ("kd-wrong-result" if tied else "kd-wrong", what + ": the k-d tree's radius query at working point %d returns positions %r, brute force %r" % (b["at"], b["got"][:8], b["want"][:8]))
             return
         if any(i not in idx for i in keep) or len(set(keep)) != len(keep):
             yield ("poisson-subset", what + ": kept %r is not a duplicate-free subset of the working indices" % (keep[:10],))
